@@ -117,6 +117,10 @@ def leapSecondsWith (tbl : List LeapEntry) (e : Ep) (iersOnly : Bool) : Option (
   | none => none
   | some t => some (leapLookup t.dur iersOnly tbl.reverse)
 
+/-- `Epoch + Duration`, `Epoch - Duration` (also `+=`, `-=`, `± Unit` through `unit * 1`) -/
+def Ep.add (e : Ep) (d : Dur) : Ep := ⟨Dur.add e.dur d, e.ts⟩
+def Ep.subD (e : Ep) (d : Dur) : Ep := ⟨Dur.sub e.dur d, e.ts⟩
+
 /-- `Epoch - Epoch` -/
 def Ep.diff (a b : Ep) : Option Dur :=
   match b.to a.ts with
